@@ -852,7 +852,8 @@ class Machine:
             mm = re.match(r'^[A-Za-z_:]+(<.*>)?$', tf)
             ta = (mm.group(1) or '') if mm else ''
             if targs:
-                norm = lambda x: re.sub(r"<>", '', re.sub(r"'[a-z_]+\s*,?\s*", '', x).replace(' ', ''))
+                # lifetimes and module paths do not take part ('&std::string::String' at the call site vs '&'a String' in the impl header)
+                norm = lambda x: re.sub(r'\b(?:[a-z_][a-z_0-9]*::)+', '', re.sub(r"<>", '', re.sub(r"'[a-z_]+\s*,?\s*", '', x).replace(' ', '')))
                 if norm(ta) == norm(targs): return it
             else:
                 # no explicit argument at the call site = the default `Rhs = Self`
